@@ -348,7 +348,7 @@ pub fn run(run: &mut Run) {
     ];
     let thorough = run.thorough();
     let p30 = strs::p30();
-    let b4 = boards_of(&[p30[0], p30[9], p30[10], p30[23]]);
+    let b4 = boards_of(&[p30[0], p30[9], p30[10], p30[23], p30[30], p30[31], p30[32], p30[33]]);
     let b12 = boards_of(&p30[..12]);
     let none: Vec<(String, Board)> = vec![];
 
@@ -371,13 +371,19 @@ pub fn run(run: &mut Run) {
         all_over(run, "UCI (uci::Move::from_str)", &strs::SIGMA_UCI, len, &|ctx, t| uci_text(ctx, t, &none));
     }
     for len in 0..=(if thorough { 6 } else { 5 }) {
-        all_over(run, "UCI on 4 positions (from_uci, from_uci_semilegal, from_uci_legal, Uci.make)", &strs::SIGMA_UCI, len, &|ctx, t| uci_text(ctx, t, &b4));
+        all_over(run, "UCI on 8 positions (from_uci, from_uci_semilegal, from_uci_legal, Uci.make)", &strs::SIGMA_UCI, len, &|ctx, t| uci_text(ctx, t, &b4));
     }
     for len in 0..=(if thorough { 7 } else { 6 }) {
         all_over(run, "SAN (san::Move::from_str)", &strs::SIGMA_SAN, len, &|ctx, t| san_text(ctx, t, &none));
     }
     for len in 0..=(if thorough { 6 } else { 5 }) {
-        all_over(run, "SAN on 4 positions (Move::from_san)", &strs::SIGMA_SAN, len, &|ctx, t| san_text(ctx, t, &b4));
+        all_over(run, "SAN on 8 positions (Move::from_san)", &strs::SIGMA_SAN, len, &|ctx, t| san_text(ctx, t, &b4));
+    }
+    {
+        let ball = boards_of(&p30);
+        for len in 0..=(if thorough { 5 } else { 4 }) {
+            all_over(run, "SAN on all P30 positions (Move::from_san)", &strs::SIGMA_SAN, len, &|ctx, t| san_text(ctx, t, &ball));
+        }
     }
     for len in 0..=(if thorough { 5 } else { 4 }) {
         all_over(run, "FEN short strings (RawBoard/Board/MoveChain::from_fen)", &SIGMA_FEN_EDIT, len, &|ctx, t| fen_text(ctx, t));
